@@ -10,6 +10,7 @@ import (
 	"io"
 	"os"
 	"runtime"
+	"strings"
 	"sync"
 	"sync/atomic"
 	"testing"
@@ -220,6 +221,9 @@ var texts = []string{"hello world", "1234567@abcdefgh", "ä¸­æ–‡çŸ­ä¿¡å†…å®¹æµ‹è¯
 // PDU types with a fixed-width text slot (an over-long value makes their encoder fail)
 var fixedSlotTypes = []string{"cmpp20.PduSubmit", "cmpp20.PduDeliver", "cmpp20.PduConnect", "cmpp30.Submit", "cmpp30.Deliver", "sgip12.Submit", "sgip12.Bind", "smgp30.Submit", "smgp30.Login", "smgp30.Deliver", "cmpp20.PduQuery"}
 
+// a content for which UCS-2 needs more than 255 parts while the GSM-7 / ASCII codings do not
+var overflowText = strings.Repeat("a", 17200)
+
 var opGen = rapid.Custom(func(t *rapid.T) Op {
 	k := rapid.SampledFrom([]string{"encode", "encode", "encodebad", "decode", "decode", "string", "string", "split", "batch", "content", "gsm7", "msgid", "ucs2", "period"}).Draw(t, "k")
 	op := Op{K: k, U: rapid.Uint64().Draw(t, "u"), Yield: rapid.IntRange(0, 3).Draw(t, "yield") == 0}
@@ -240,6 +244,9 @@ var opGen = rapid.Custom(func(t *rapid.T) Op {
 		op.Vals = &j
 	default:
 		op.Text = vk.Hex([]byte(rapid.SampledFrom(texts).Draw(t, "text")))
+		if k == "batch" && rapid.IntRange(0, 4).Draw(t, "overflow") == 0 {
+			op.Text = vk.Hex([]byte(overflowText)) // one candidate fails with 'too many parts' while its siblings run
+		}
 		op.Proto = rapid.SampledFrom([]string{"cmpp", "smpp"}).Draw(t, "proto")
 		if op.Proto == "cmpp" {
 			op.Coding = rapid.SampledFrom([]int{0, 8, 9, 15}).Draw(t, "coding")
